@@ -267,6 +267,12 @@ pub fn template(name: &str, serial: u32, big_endian: bool) -> Crafted {
                 .endian(endian);
             finish(b.build(&("fd", placeholder_fd())).unwrap(), 1)
         }
+        // a message of a type this version of the specification does not define, carrying one fd (to be skipped)
+        "unk1" => {
+            let mut c = template("call1", serial, big_endian);
+            c.bytes[1] = 9;
+            c
+        }
         // two fds with bytes in between
         "sig2" => finish(
             sig("TwoFds")
